@@ -74,11 +74,19 @@ def table() -> TextTable:
     return e.text
 
 
+_SENT_ANY = re.compile(r"73\d{5}37|5e\d{4}a1")
+
+
 def has_placeholder(s: str) -> bool:
     for ch in s:
         o = ord(ch)
         if o == 0xE000 or o == 0xE001 or UNIT_BASE <= o <= UNIT_LIMIT:
             return True
+    if core.active() and core.env().text is not None and core.env().text.sent:
+        tt = core.env().text
+        for m in _SENT_ANY.finditer(s):
+            if m.group(0) in tt.sent:
+                return True
     return False
 
 
@@ -91,6 +99,13 @@ def decode(s: str):
     while i < n:
         ch = s[i]
         o = ord(ch)
+        if tt is not None and tt.sent and ch in "75":
+            m = _SENT_ANY.match(s, i)
+            if m and m.group(0) in tt.sent:
+                value, base = tt.sent[m.group(0)]
+                out.append(("span", "sentinel%d" % base, value))
+                i = m.end()
+                continue
         if o == 0xE000:
             j = s.index(SPAN_END, i)
             spec, value = tt.spans[builtins.int(s[i + 1 : j])]
@@ -128,6 +143,10 @@ def render_concrete(s: str, evalf) -> str:
 
 
 def render_value(v: int, spec: str) -> str:
+    if spec == "sentinel10":
+        return format(v, "d")
+    if spec == "sentinel16":
+        return format(v, "x")
     if spec == "f32":
         return str(struct.unpack(">f", v.to_bytes(4, "big"))[0])
     return format(v, spec)
